@@ -2,7 +2,16 @@
 #include <cstdio>
 #include <cstdlib>
 
+#ifdef TEAKRA_VERIF
+// Verification hook (off by default): lets a simulation harness turn a deliberate
+// assertion abort into an outcome it can classify. Defined by the harness.
+[[noreturn]] void teakra_verif_on_assert(const char* expression, const char* file, int line);
+#endif
+
 [[noreturn]] inline void Assert(const char* expression, const char* file, int line) {
+#ifdef TEAKRA_VERIF
+    teakra_verif_on_assert(expression, file, line);
+#endif
     std::fprintf(stderr, "Assertion '%s' failed, file '%s' line '%d'.", expression, file, line);
     std::abort();
 }
